@@ -250,10 +250,20 @@ Module Example.
        i_user := fun _ args => match args with
                                | [VAtom a; VAtom b] => VOrd (Z.compare b a)
                                | _ => VOrd Eq
-                               end |}.
+                               end;
+       i_size_of_self := 0;
+       i_clone := fun v => v;
+       i_clone_from := fun _ v => v;
+       i_into := fun v => v;
+       i_default := fun _ => VUnit |}.
   Definition I1 : interp :=
     {| i_ne := i_ne I0; i_eq := i_eq I0; i_cmp := i_cmp I0; i_partial_cmp := i_partial_cmp I0;
-       i_user := fun p args => VOpt (Some (i_user I0 p args)) |}.
+       i_user := fun p args => VOpt (Some (i_user I0 p args));
+       i_size_of_self := i_size_of_self I0;
+       i_clone := i_clone I0;
+       i_clone_from := i_clone_from I0;
+       i_into := i_into I0;
+       i_default := i_default I0 |}.
 
   Definition val (a b c d e : Z) : value :=
     VData None [("a", VAtom a); ("b", VAtom b); ("c", VAtom c); ("d", VAtom d); ("e", VAtom e)].
@@ -270,8 +280,8 @@ Module Example.
     intros vn dd l Hin k fa x y Hk mm Hm.
     exists (Some (match x, y with VAtom a, VAtom b => Z.compare b a | _, _ => Eq end)).
     split; [|discriminate].
-    destruct x as [| | | | |a| | | | |]; try reflexivity.
-    destruct y as [| | | | |b| | | | |]; reflexivity.
+    destruct x as [| | | | |a| | | | | |]; try reflexivity.
+    destruct y as [| | | | |b| | | | | |]; reflexivity.
   Qed.
 
   Example hypotheses_hold :
@@ -330,8 +340,8 @@ Module Example.
     intros vn dd l Hin k fa x y Hk mm Hm.
     exists (Some (match x, y with VAtom a, VAtom b => Z.compare b a | _, _ => Eq end)).
     split; [|discriminate].
-    destruct x as [| | | | |a| | | | |]; try reflexivity.
-    destruct y as [| | | | |b| | | | |]; reflexivity.
+    destruct x as [| | | | |a| | | | | |]; try reflexivity.
+    destruct y as [| | | | |b| | | | | |]; reflexivity.
   Qed.
 
   Example partial_hypotheses_hold :
